@@ -837,6 +837,83 @@ def run_histories(run, rng):
                 run.find(f"evolution_reuse:{m['kind']}:dt={m['dt']}:{m['runs_t0_T']}", "a re-used StateEvolution evaluates H(t) at other times than a fresh one", m)
 
 
+# ------------------------------------------------------------------ execute(): operation trace and norm of the returned state
+class SolverProxy:
+    """records every solver step; forwards t / dt to the real solver"""
+
+    def __init__(self, inner, trace):
+        object.__setattr__(self, "_inner", inner)
+        object.__setattr__(self, "_trace", trace)
+
+    def __call__(self, state):
+        self._trace.append("XStep")
+        return self._inner(state)
+
+    def __getattr__(self, name):
+        return getattr(self._inner, name)
+
+    def __setattr__(self, name, value):
+        setattr(self._inner, name, value)
+
+
+def run_norm(run, rng):
+    """every solver x {no callbacks, [Norm], [Energy]} x a few dt: the returned state has norm 1 (exp / Trotter are
+    unitary, Runge-Kutta states are normalised by execute), and the sequence of operations of execute
+    (callbacks, solver steps, normalisations) is the model's execute_trace -- also WITHOUT callbacks."""
+    from qibo import hamiltonians, models, callbacks
+    from qibo.symbols import X, Z
+    items, meta = [], {}
+    dts = [0.1, 0.05, 0.25] if run.tier == "quick" else [0.1, 0.05, 0.25, 0.125, 0.2]
+    worst = {}
+    for solver in ("exp", "rk4", "rk45", "trotter"):
+        for cbname in ("none", "Norm", "Energy"):
+            for dt in dts:
+                hx = rng.choice([0.5, 1.0, 2.0])
+                if solver == "trotter":
+                    ham = hamiltonians.SymbolicHamiltonian(-Z(0) * Z(1) - hx * X(0) - hx * X(1) + 0.5 * Z(1), nqubits=2)
+                    sname = "exp"
+                else:
+                    ham = hamiltonians.TFIM(2, h=hx, dense=True)
+                    sname = solver
+                cbs = {"none": [], "Norm": [callbacks.Norm()], "Energy": [callbacks.Energy(hamiltonians.TFIM(2, h=hx, dense=True))]}[cbname]
+                ev = models.StateEvolution(ham, dt=dt, solver=sname, callbacks=cbs)
+                trace = []
+                ev.solver = SolverProxy(ev.solver, trace)
+                on, oc = ev.normalize_state, ev.calculate_callbacks
+                ev.normalize_state = lambda s_, _o=on: (trace.append("XNorm"), _o(s_))[1]
+                ev.calculate_callbacks = lambda s_, _o=oc: (trace.append("XCb"), _o(s_))[1]
+                psi0 = np.array([complex(rng.randrange(-3, 4), rng.randrange(-3, 4)) for _ in range(4)])
+                if not np.any(psi0):
+                    psi0[0] = 1
+                psi0 = psi0 / np.linalg.norm(psi0)
+                T = 1.0
+                out = np.asarray(ev(final_time=T, initial_state=psi0.copy()))
+                nsteps_run = trace.count("XStep")
+                err = abs(float(np.linalg.norm(out)) - 1.0)
+                worst[(solver, cbname)] = max(worst.get((solver, cbname), 0.0), err)
+                desc = {"mechanism": "norm", "solver": solver, "callbacks": cbname, "dt": dt, "final_time": T, "h": hx,
+                        "initial_state": [[float(x.real), float(x.imag)] for x in psi0], "norm_error": err}
+                run.case(["norm", solver, cbname, dt, hx], nontrivial=True)
+                if err > 1e-12:
+                    run.find(f"norm:{solver}:{cbname}:dt={dt}", f"StateEvolution(solver={sname!r}, callbacks={cbname}) returns a state of norm 1 {err:+.3e} (tolerance 1e-12)", desc)
+                lab = f"trace:{solver}:{cbname}:{dt}"
+                items.append((lab, f"list_eqb xop_eqb (execute_trace {'true' if cbs else 'false'} {nsteps_run}%nat) [{';'.join(trace)}]"))
+                meta[lab] = {**desc, "trace": "".join({"XCb": "C", "XStep": "S", "XNorm": "N"}[o] for o in trace)}
+    run.notes.setdefault("tests", []).append({"test": "| ||psi_T|| - 1 | of the state returned by StateEvolution, per (solver, callbacks), max over dt",
+                                              "max_errors": {f"{a}/{b}": v for (a, b), v in worst.items()}, "tolerance": 1e-12})
+    run.sample({"kind": "execute trace (C callbacks, S solver step, N normalize_state)", "solver": "rk4", "callbacks": "none", "dt": dts[0],
+                "trace": meta[f"trace:rk4:none:{dts[0]}"]["trace"]})
+    res, out = run.coq_bools("C16_execute_trace.v", HEADER, items, timeout=600)
+    if res is None:
+        run.find("coq:C16_execute_trace", "generated file does not compile", {"log": out[-1500:]}, concrete=False)
+        return
+    for lab, _ in items:
+        if not res[lab]:
+            m = meta[lab]
+            run.find(f"execute_trace:{m['solver']}:{m['callbacks']}:dt={m['dt']}",
+                     "StateEvolution.execute does not perform the operations of the model (callbacks; per step: solver, [normalise, callbacks]; final normalise): observed " + m["trace"], m)
+
+
 # ------------------------------------------------------------------ exponential solver
 def run_exp_solver(run, rng):
     from qibo import hamiltonians, models
@@ -885,6 +962,7 @@ def main(run):
     run_rk(run, rng)
     run_rk_timedep(run, rng)
     run_histories(run, rng)
+    run_norm(run, rng)
     run_exp_solver(run, rng)
     run.notes["historical"] = ("coq/theories/C16/History.v holds lemmas about the pre-repair code (nsteps truncation, RK stages "
                                "without -i); they are not statements about the current tree")
@@ -927,6 +1005,9 @@ def replay(run, data):
         if "steps_expected" in rp and n != rp["steps_expected"]:
             run.find(key, data.get("what", "step count"), {**rp, "steps_now": n, **replay_missing_step(rp["t0"], rp["T"], rp["dt"], rp["steps_expected"])})
         return run.finish(level="proof", rule="replay of one recorded case")
+    if key.startswith("norm:") or key.startswith("execute_trace:"):
+        run_norm(run, random.Random(run.seed))
+        return run.finish(level="proof", rule="replay of the norm / execute-trace configurations (same seed)")
     if key.startswith("rk_stage") or key.startswith("rk_times"):
         run_rk_timedep(run, random.Random(0))
         return run.finish(level="proof", rule="replay of one recorded case")
